@@ -504,6 +504,20 @@ pub fn check_with_ending(v: &View, sc: Option<&Scenario>, quiescent: bool, t_end
     let mut pending = Vec::new();
     if quiescent {
         open_ops.retain(|_, (_, a)| !matches!(a.op, Op::DropSend | Op::DropRecv | Op::DropSendResponse | Op::DropResponseFuture | Op::DropSendRequest | Op::DropConn));
+        // A task killed by one of the test-only drop assertions of h2's `unstable` feature (triaged as a note, see
+        // C08/C19) leaves the operation it was inside open for ever: that operation did not hang, its caller died.
+        for ev in v.evs() {
+            if let crate::trace::EvK::Note(n) = &ev.k {
+                if n.starts_with("PANIC in task") && (n.contains("self.slab.is_empty()") || n.contains("!self.has_streams()")) {
+                    let side = if n.contains("task client") { Side::Client } else { Side::Server };
+                    let victim = open_ops.iter().filter(|(_, (t, a))| *t <= ev.t && a.side == side).max_by_key(|(_, (t, _))| *t).map(|(id, _)| *id);
+                    if let Some(id) = victim {
+                        open_ops.remove(&id);
+                        stats.inc("pending_op_of_task_killed_by_unstable_assertion");
+                    }
+                }
+            }
+        }
         for (_id, (t, a)) in &open_ops {
             pending.push(format!("{} {:?} tag={} sid={} (called at t={})", a.side.name(), a.op, a.tag, a.sid, t));
         }
